@@ -42,7 +42,7 @@ class Mode:
     """One way of invoking xz on a file pair (or several)."""
     def __init__(self, name, args, files, direction="c", keep=False, force=False, stdout=False, stdin=False, sync=True,
                  pre_target=False, valid=True, init_ok=True, skip=False, gid=False, threads="-T1", lifted=False,
-                 hardlink=False, files_from=False, sigpipe_ignored=False, ignored_sig=None):
+                 hardlink=False, files_from=False, sigpipe_ignored=False, ignored_sig=None, env=None):
         self.name, self.args, self.files, self.direction = name, list(args), files, direction
         self.keep, self.force, self.stdout, self.stdin, self.sync = keep, force, stdout, stdin, sync
         self.pre_target, self.valid, self.init_ok, self.skip, self.gid = pre_target, valid, init_ok, skip, gid
@@ -50,6 +50,7 @@ class Mode:
         # xz inherits this signal as SIG_IGN: signals_init() installs no handler for it (and only for it)
         self.ignored_sig = 13 if sigpipe_ignored else ignored_sig
         self.sigpipe_ignored = self.ignored_sig == 13
+        self.env = dict(env or {})     # extra environment of xz (XZ_OPT, XZ_DEFAULTS)
         # files: list of dict(src=name, dst=name or None, data=bytes written as the source, plain=uncompressed bytes)
 
     @property
@@ -67,8 +68,9 @@ class Mode:
 
 class Plan:
     """faults: {k: ('E', errno) | ('S', count)};  sig: (k, signo, eintr) ; move: (k, 's'|'d') ; crash: (k, 'X'|'K')"""
-    def __init__(self, faults=None, sig=None, move=None, crash=None, tag="", epipe=None):
+    def __init__(self, faults=None, sig=None, move=None, crash=None, tag="", epipe=None, close_out=None):
         self.faults, self.sig, self.move, self.crash, self.tag = dict(faults or {}), sig, move, crash, tag
+        self.close_out = close_out   # errno: the final close of standard output (fclose in tuklib_exit) fails (seccomp)
         self.epipe = epipe   # k: the k-th call (a write) hits a broken pipe: SIGPIPE is raised and the call fails with EPIPE
 
     def sig_eff(self, mode):
@@ -105,13 +107,13 @@ class Plan:
     def model_args(self, mode):
         f = self.model_faults()
         sg = self.sig_eff(mode)
-        return "plan=%s sig=%s move=%s crash=%s" % (
+        return ("closeout=1 " if self.close_out else "") + "plan=%s sig=%s move=%s crash=%s" % (
             ",".join("%d:%s%d" % (k, a, v) for k, (a, v) in sorted(f.items())) or "-",
             sg[0] if sg else "-", ("%d%s" % self.move) if self.move else "-",
             self.crash[0] if self.crash else "-")
 
     def desc(self):
-        return self.env() or "none"
+        return (self.env() or "none") + (" close(stdout)=E%d" % self.close_out if self.close_out else "")
 
 
 _scratch_n = [0]
@@ -148,6 +150,7 @@ def run_case(xz, so, mode, plan, keep_dir=False, timeout=60):
             inos[f["dst"]] = os.stat(os.path.join(d, f["dst"])).st_ino
     log = os.path.join(d, "_log")
     env = {"PATH": "/usr/bin:/bin", "LD_PRELOAD": so, "C17_LOG": log, "C17_NOFSYNC": "1", "LC_ALL": "C"}
+    env.update(mode.env)
     pe = plan.env()
     if pe:
         env["C17_PLAN"] = pe
@@ -175,7 +178,8 @@ def run_case(xz, so, mode, plan, keep_dir=False, timeout=60):
     # xz must not inherit whatever dispositions / mask / umask ./check was started with: the launcher resets them and
     # then installs exactly the inherited-SIG_IGN scenario of this mode (no preexec_fn: we run in threads; the launcher
     # itself is not under LD_PRELOAD's influence in any way that matters: it makes no recorded call)
-    launch = [LAUNCH[0]] + (["-i", str(mode.ignored_sig)] if mode.ignored_sig else []) + ["--"] + argv
+    launch = ([LAUNCH[0]] + (["-i", str(mode.ignored_sig)] if mode.ignored_sig else [])
+              + (["-c", str(plan.close_out)] if plan.close_out else []) + ["--"] + argv)
     try:
         p = subprocess.run(launch, cwd=d, env=env, stdin=sin, stdout=sout, stderr=subprocess.PIPE, timeout=timeout)
         rc, err = p.returncode, p.stderr.decode("utf-8", "replace")
